@@ -108,7 +108,8 @@ func genLattice(g *Rng, idx uint64) *Plan {
 	a.NotOnOrAfter = i64(x + latticeMargin(digit(3)) - mcs)
 	a.Confs = []ConfSpec{
 		{NotOnOrAfter: i64(x + latticeMargin(digit(4)) - mcs), Recipient: spBase + "/saml/acs", InResponseTo: "id-req"},
-		{NotOnOrAfter: i64(x + latticeMargin(digit(5)) - mcs), Recipient: spBase + "/saml/acs", InResponseTo: "id-req"},
+		{NotOnOrAfter: i64(x + latticeMargin(digit(5)) - mcs), Recipient: spBase + "/saml/acs", InResponseTo: "id-req",
+			Method: Pick(g, "", "", "urn:oasis:names:tc:SAML:2.0:cm:holder-of-key", "urn:oasis:names:tc:SAML:2.0:cm:sender-vouches")},
 	}
 	st.Classes = []string{"resp-issue:" + digit(0), "as0-issue:" + digit(1), "as0-nb:" + digit(2), "as0-noa:" + digit(3), "as0-conf0:" + digit(4), "as0-conf1:" + digit(5)}
 	spec.Assertions = []AsrtSpec{a}
@@ -160,7 +161,8 @@ func genWindows(g *Rng, tier string) *Plan {
 			nc := 1 + g.PickW(5, 3, 1)
 			for q := 0; q < nc; q++ {
 				m, c = drawMargin(g, mcs)
-				a.Confs = append(a.Confs, ConfSpec{NotOnOrAfter: i64(x + m - mcs), Recipient: spBase + "/saml/acs", InResponseTo: "id-req"})
+				a.Confs = append(a.Confs, ConfSpec{NotOnOrAfter: i64(x + m - mcs), Recipient: spBase + "/saml/acs", InResponseTo: "id-req",
+					Method: Pick(g, "", "", "", "urn:oasis:names:tc:SAML:2.0:cm:holder-of-key", "urn:oasis:names:tc:SAML:2.0:cm:sender-vouches")})
 				st.Classes = append(st.Classes, fmt.Sprintf("as%d-conf%d:%s", j, q, c))
 			}
 			if g.Bool(0.2) {
